@@ -384,7 +384,7 @@ func replayHist(kind string, input json.RawMessage) (bool, string) {
 	default:
 		why, _, _ = checkGrouping(in)
 	}
-	return why != "" && why != "HUNG", fmt.Sprintf("units=%v cfg=%s lockstep=%v: %s", in.Units, CfgName(in.Cfg), in.LockStep, why)
+	return why != "", fmt.Sprintf("units=%v cfg=%s lockstep=%v: %s", in.Units, CfgName(in.Cfg), in.LockStep, why)
 }
 
 // classify derives a violation key from a difference description.
